@@ -37,7 +37,13 @@ def handle (kv : KV) : String :=
     | [] => s!"ERR {id} no-results"
     | (n0, r0) :: _ =>
       match rs.find? (fun x => x.2 != r0) with
-      | some (n, r) => s!"SPEC {id} which=result-depends-on-entry-point-adapter-or-chunking sig=C11:{san}:{n} {n0}={r0.take 80} {n}={r.take 80}"
+      | some (n, r) =>
+        -- the one known way (F9): only the real `File` differs, with the kernel's EINVAL for a seek target beyond the
+        -- file system's largest offset, where every in-memory reader reports the truncated box
+        let diffs := rs.filter (fun x => x.2 != r0)
+        let sig := if diffs.all (fun x => x.1 == "file" && x.2 == "err:io:InvalidInput") && r0.startsWith "err:parse:Truncated"
+                   then "C11:file-seek-beyond-filesystem-offset-limit" else s!"C11:{san}:{n}"
+        s!"SPEC {id} which=result-depends-on-entry-point-adapter-or-chunking sig={sig} {n0}={r0.take 80} {n}={r.take 80}"
       | none =>
         if r0 == "panic" then s!"SPEC {id} which=no-panic sig=C11:panic"
         else
